@@ -1,4 +1,5 @@
 import Tumfl.Inst.Brackets
+import Tumfl.Theory.EmitOpsSep
 /-!
 # C11  Operator parenthesisation is exact under every bracket option
 
@@ -25,5 +26,26 @@ theorem C11_precOK (s : BrOpts) (t : T) : PrecOK (par (tumflDec s) t) :=
 /-- Non-vacuity: `a - (b + c)` under the default options keeps its brackets, and re-reads. -/
 example : printed ⟨false, true, false⟩ (.bin .sub (.atom 0) (.bin .add (.atom 1) (.atom 2)))
     = [.atom 0, .b .sub, .lpar, .atom 1, .b .add, .atom 2, .rpar] := by decide +kernel
+
+end Tumfl.Props
+
+namespace Tumfl.Props
+open Tumfl.Spec Tumfl.Model Tumfl.Theory Tumfl.Inst
+
+/-- The gap "atoms are opaque" closed for the model of the real emitter: for operator trees over names, what `Formatter.visit`
+emits (model `visitExpr`, T2-tied) IS the rendering of `par` applied to the tree's skeleton ... -/
+theorem C11_emit_is_par (sty : Style) {e : Expr} (h : IsOpTree e) :
+    visitExpr sty e = render (unSpace sty.brOpts) decodeName (par (tumflDec sty.brOpts) (skel e)) :=
+  visitExpr_eq_render sty h
+
+/-- ... so the token sequence of the emitted pieces re-parses, by Lua's algorithm, to the same tree (names that are not operator spellings). -/
+theorem C11_emit_roundtrip (sty : Style) (e : Expr) (h : IsOpTree e) (hn : NamesOK e) :
+    ∃ f x, subexpr f 0 (toks (visitExpr sty e)) = some (x, []) ∧ strip x = skel e :=
+  emit_roundtrip_pieces sty e h hn
+
+/-- and after the minifier's separator removal the token sequence is unchanged and no two adjacent pieces need a separator -/
+theorem C11_minified (sty : Style) (e : Expr) (h : IsOpTree e) (hw : AllNames IsWordStart e) :
+    ∃ ps, removeSeparators (visitExpr sty e) = .ok ps ∧ adjOK none ps ∧ toks ps = toks (visitExpr sty e) :=
+  minified_ops sty h hw
 
 end Tumfl.Props
